@@ -52,6 +52,33 @@ Definition run_bauth (c : value) : value :=
   | _ => verr
   end.
 
+(* family "bauthm": one middleware instance across a history of add() calls and connections.
+   case ::= ( realm (step..) oracle ),  step ::= ( 0 user pass ) | ( 1 ops meta ); one log per connection *)
+Fixpoint run_bauthm_steps (e : env) (realm : bytes) (table : list (bytes * bytes)) (steps : list value) : option (list value) :=
+  match steps with
+  | [] => Some []
+  | VL [VI 0; VB u; VB pw] :: r => run_bauthm_steps e realm (table ++ [(u, pw)]) r
+  | VL [VI 1; VL ops0; _] :: r =>
+      match dec_ops ops0, run_bauthm_steps e realm table r with
+      | Some ops, Some rest =>
+          let p := {| on_headers := fun rq _ => basic_aops table realm (hm_value (B "Authorization") (q_headers rq));
+                      on_ready := []; on_finished := []; hdr_after := true |} in
+          Some (VL (map ev_value (snd (run_ops e p init_sock ops))) :: rest)
+      | _, _ => None
+      end
+  | _ => None
+  end.
+
+Definition run_bauthm (c : value) : value :=
+  match c with
+  | VL [VB realm; VL steps; orc] =>
+      match dec_env orc with
+      | Some e => match run_bauthm_steps e realm [] steps with Some l => VL l | None => verr end
+      | None => verr
+      end
+  | _ => verr
+  end.
+
 (* family "b64": (bytes) -> (fromBase64 toBase64) *)
 Definition run_b64 (c : value) : value :=
   match c with
